@@ -329,6 +329,14 @@ func receiveBody(c *nd.Ctx) nd.Result {
 	npk := 1 + c.Choose(3, "packets")
 	withClose := c.Choose(2, "peer-closes") == 0
 	readSize := []int{1, 4, 64}[c.Choose(3, "read-buffer")]
+	// the application lifts the limit on buffered data (documented: zero or
+	// less means unlimited); the stream then uses a block size so small that
+	// the packets on their way exceed one block
+	unlimited := c.Choose(2, "SetReadBuffer-unlimited") == 1
+	inBlock := 4096
+	if unlimited {
+		inBlock = 4
+	}
 	sizes := []int{3, 5, 2}
 	var want []byte
 	ns := stanza.NSClient
@@ -345,7 +353,7 @@ func receiveBody(c *nd.Ctx) nd.Result {
 		l := h.Listen(env.S)
 		env.Serve(mux.New(ns, ibb.Handle(h)))
 		var in strings.Builder
-		in.WriteString(openReq("o1", "s1", carrier, 4096))
+		in.WriteString(openReq("o1", "s1", carrier, inBlock))
 		off := 0
 		all := payload(16)
 		for i := 0; i < npk; i++ {
@@ -357,11 +365,20 @@ func receiveBody(c *nd.Ctx) nd.Result {
 		if withClose {
 			in.WriteString(closeReq("c1", "s1"))
 		}
-		env.PeerWrite(in.String())
+		if unlimited {
+			// the packets are sent once the limit has been lifted
+			env.PeerWrite(openReq("o1", "s1", carrier, inBlock))
+		} else {
+			env.PeerWrite(in.String())
+		}
 		conn, err := l.Accept()
 		acceptErr = err
 		if err != nil {
 			return
+		}
+		if unlimited {
+			conn.(*ibb.Conn).SetReadBuffer(0)
+			env.PeerWrite(strings.TrimPrefix(in.String(), openReq("o1", "s1", carrier, inBlock)))
 		}
 		buf := make([]byte, readSize)
 		for {
@@ -385,7 +402,7 @@ func receiveBody(c *nd.Ctx) nd.Result {
 	if setupErr != nil {
 		panic(setupErr)
 	}
-	desc := fmt.Sprintf("receive carrier=%s packets=%d peer-closes=%v read-buffer=%d", carrier, npk, withClose, readSize)
+	desc := fmt.Sprintf("receive carrier=%s packets=%d peer-closes=%v read-buffer=%d unlimited-buffer=%v", carrier, npk, withClose, readSize, unlimited)
 	c.Note("%s outcome=%s", desc, out.Kind)
 	for _, t := range out.Trace {
 		c.Note("  %s", t)
@@ -624,6 +641,7 @@ func localCloseBody(c *nd.Ctx) nd.Result {
 func closeDrainBody(c *nd.Ctx) nd.Result {
 	carrier := []string{"iq", "message"}[c.Choose(2, "carrier")]
 	npk := 1 + c.Choose(2, "packets")
+	closeRefused := c.Choose(2, "peer-answers-close-with-error") == 1
 	ns := stanza.NSClient
 	var env *vsess.Env
 	var setupErr, closeErr, readErr error
@@ -648,7 +666,12 @@ func closeDrainBody(c *nd.Ctx) nd.Result {
 					want = append(want, d...)
 					env.PeerWrite(dataPacket(carrier, fmt.Sprintf("t%d", i), "s1", i, d))
 				}
-				env.PeerWrite(fmt.Sprintf(`<iq type='result' id='%s' from='%s'/>`, id, peerJID))
+				if closeRefused {
+					// the peer does not know the session (any more): our side is closed all the same
+					env.PeerWrite(fmt.Sprintf(`<iq type='error' id='%s' from='%s'><error type='cancel'><item-not-found xmlns='urn:ietf:params:xml:ns:xmpp-stanzas'/></error></iq>`, id, peerJID))
+				} else {
+					env.PeerWrite(fmt.Sprintf(`<iq type='result' id='%s' from='%s'/>`, id, peerJID))
+				}
 			}
 		}
 		h := &ibb.Handler{}
@@ -668,7 +691,10 @@ func closeDrainBody(c *nd.Ctx) nd.Result {
 	if setupErr != nil {
 		panic(setupErr)
 	}
-	desc := fmt.Sprintf("local close while the peer flushes %d packets before acknowledging, carrier=%s", npk, carrier)
+	desc := fmt.Sprintf("local close while the peer flushes %d packets before acknowledging (close answered with an error: %v), carrier=%s", npk, closeRefused, carrier)
+	if closeRefused && closeErr != nil {
+		closeErr = nil // Close reports the peer's refusal: fine; what matters is that reads end
+	}
 	res := nd.Result{Outcome: out.Kind, NonTrivial: desc + fmt.Sprint(c.Vector())}
 	switch {
 	case out.Kind == "panic":
